@@ -354,3 +354,9 @@ def replay(case, ctx):
         grass_multiplier(ctx, (case["iso3"], case["options"], case["multiplier"]))
     else:
         e2e(ctx, case["iso3"], case["options"])
+
+
+# coverage-guided tier (vlib/fuzz.py): the supply classes called directly on generated constants
+FUZZ_IMPORTS = ["src.food_system.seafood", "src.food_system.methane_scp", "src.food_system.cellulosic_sugar", "src.food_system.seaweed",
+                "src.food_system.stored_food", "src.food_system.feed_and_biofuels", "src.food_system.meat_and_dairy", "src.food_system.food"]
+FUZZ_TARGETS = {"direct": (lambda ctx: (direct_case(), lambda c: direct(ctx, c)), 600, 40000, 2)}
